@@ -142,6 +142,8 @@ Ltac simp_hyps :=
   | H : true = true -> _ |- _ => specialize (H eq_refl)
   | H : false = true -> _ |- _ => clear H
   | H : In ?a ?b -> _, H' : In ?a ?b |- _ => specialize (H H')
+  | H : ?a = ?b -> _, H' : ?a = ?b |- _ => specialize (H H')
+  | H : (_ =? _)%nat = false |- _ => apply Nat.eqb_neq in H
   | H : _ /\ _ |- _ => destruct H
   | H : (?a =? ?a)%nat = false |- _ => rewrite Nat.eqb_refl in H; discriminate H
   end.
@@ -156,8 +158,8 @@ Ltac flags Hs1 Hs2 :=
 
 Ltac noact :=
   exfalso; match goal with A : forall x, ~ In (x, ?s) ?l, H : In (_, ?s) ?l |- _ => exact (A _ H) end.
-Ltac fin := solve [ eauto | congruence | discriminate | contradiction | noact
-                  | intuition (eauto; congruence) ].
+Ltac fin := solve [ assumption | congruence | discriminate | contradiction | noact | eauto 3
+                  | intuition (first [congruence | noact | eauto 3]) ].
 
 (* ---- fields about the Unsubscribe program counter ---- *)
 Lemma d_newU_step w e w' :
@@ -215,5 +217,56 @@ Proof.
     intros i0 s0 Hin x0 Hact; unfold clear_subs in *; use_in; split_upd; wsimp; sat_in; sat_nat; rew_all; simp_hyps;
     try fin.
   all: rewrite ?upd_same in *; wsimp; try fin.
+Qed.
+
+Lemma d_uniq_step w e w' :
+  invA w -> invC0 w -> w_straddle w' = false -> w_substraddle w' = false -> invD w -> wstep w e = Some w' ->
+  forall i i' s, In (i, s) (w_pend w') -> In (i', s) (w_pend w') -> i = i'.
+Proof.
+  intros IA IC Hs1 Hs2 D H. start IA IC D H e; flags Hs1 Hs2;
+    intros i0 i1 s0 Hin Hin'; unfold clear_subs in *; use_in; split_upd; wsimp; sat_in; sat_nat; rew_all; simp_hyps;
+    try fin.
+  all: rewrite ?upd_same in *; wsimp; try fin.
+Qed.
+
+Lemma d_conf_step w e w' :
+  invA w -> invC0 w -> w_straddle w' = false -> w_substraddle w' = false -> invD w -> wstep w e = Some w' ->
+  forall s x t, w_rpc w' = RConfirm s x t -> no_act w' s /\ no_pend w' s.
+Proof.
+  intros IA IC Hs1 Hs2 D H. start IA IC D H e; flags Hs1 Hs2;
+    intros s0 x0 t0 Hr; try discriminate Hr; unfold clear_subs in *;
+    (split; [intros x1 Hin|intros i1 Hin]);
+    use_in; split_upd; wsimp; sat_in; sat_nat; rew_all; simp_hyps;
+    try fin.
+  all: rewrite ?upd_same in *; wsimp; try fin.
+Qed.
+
+Lemma d_early_step w e w' :
+  invA w -> invC0 w -> w_straddle w' = false -> w_substraddle w' = false -> invD w -> wstep w e = Some w' ->
+  forall s, early (w_spc w' s) = true -> quiet w' s.
+Proof.
+  intros IA IC Hs1 Hs2 D H. start IA IC D H e; flags Hs1 Hs2;
+    intros s0 He; unfold clear_subs in *;
+    (split; [intros x1 Hin|split; [intros i1 Hin|]]);
+    use_in; split_upd; wsimp; sat_in; sat_nat; rew_all; simp_hyps;
+    try fin.
+  all: rewrite ?upd_same in *; wsimp; try fin.
+  all: try (match goal with |- (?a =? ?b)%nat = false => apply Nat.eqb_neq; intro; subst end; simp_hyps; try fin).
+  all: try solve [match goal with He : early (w_spc ?w ?s) = true |- _ =>
+         destruct (w_spc w s); cbn in *; try discriminate; intuition end].
+Qed.
+
+Lemma d_todo_step w e w' :
+  invA w -> invC0 w -> w_straddle w' = false -> w_substraddle w' = false -> invD w -> wstep w e = Some w' ->
+  forall s, In s (todo' (w_hpc w')) -> quiet w' s.
+Proof.
+  intros IA IC Hs1 Hs2 D H. start IA IC D H e; flags Hs1 Hs2; rewrite ?todo'_hnorm;
+    intros s0 He; unfold clear_subs in *;
+    (split; [intros x1 Hin|split; [intros i1 Hin|]]);
+    rewrite ?todo'_match in *; cbn [todo'] in He;
+    use_in; split_upd; wsimp; sat_in; sat_nat; rew_all; simp_hyps;
+    try fin.
+  all: rewrite ?upd_same in *; wsimp; try fin.
+  all: try (match goal with |- (?a =? ?b)%nat = false => apply Nat.eqb_neq; intro; subst end; simp_hyps; try fin).
   all: idtac "left". Show.
 Qed.
